@@ -1,0 +1,29 @@
+//go:build verif
+
+// Contracts for deductive verification (comment-only; read by /verif/govc, never compiled into the product).
+
+package callable
+
+// C08: within a moment hooks fire strictly by ascending weight: the weight list every hook loop iterates is sorted and
+// has one entry per key of the map.
+//@ func (m HooksMap) GetWeights() (out []HookWeight)
+//@   property C08
+//@   ensures len(out) == len(m)
+//@   ensures forall a int, b int :: 0 <= a && a <= b && b < len(out) ==> out[a] <= out[b]
+//@   loop 2 invariant #i >= -1 && #i < len(weights) && len(out) == len(weights) && fresh(out) && fresh(weights)
+//@   loop 2 invariant forall a int, b int :: 0 <= a && a <= b && b < len(weights) ==> weights[a] <= weights[b]
+//@   loop 2 invariant forall k int :: 0 <= k && k <= #i ==> out[k] == weights[k]
+
+//@ func (m CallsMap) GetWeights() (out []HookWeight)
+//@   property C08
+//@   ensures len(out) == len(m)
+//@   ensures forall a int, b int :: 0 <= a && a <= b && b < len(out) ==> out[a] <= out[b]
+//@   loop 2 invariant #i >= -1 && #i < len(weights) && len(out) == len(weights) && fresh(out) && fresh(weights)
+//@   loop 2 invariant forall a int, b int :: 0 <= a && a <= b && b < len(weights) ==> weights[a] <= weights[b]
+//@   loop 2 invariant forall k int :: 0 <= k && k <= #i ==> out[k] == weights[k]
+
+// C09: several hooks failing at the same point are collected without harming the core: the goroutines spawned by
+// AwaitAll may write the shared result map only under a lock.
+//@ func (s Calls) AwaitAll() (errs map[*Call]error)
+//@   property C09
+//@   goframes
